@@ -51,6 +51,8 @@ impl ExclusiveTermAppender {
     }
 
     pub fn raw_tail(&self) -> i64 {
+        #[cfg(kani)]
+        let _vh = crate::verif_kani::hook::read(self.tail_addr as *mut u8, 0, 8, crate::verif_kani::hook::PLAIN);
         unsafe { *self.tail_addr } // brrrrr....
     }
 
@@ -253,6 +255,11 @@ impl ExclusiveTermAppender {
     }
 
     fn put_raw_tail_ordered(&mut self, term_id: i64, term_offset: Index) {
+        #[cfg(kani)]
+        let _vh = match crate::verif_kani::hook::write(self.tail_addr as *mut u8, 0, 8, crate::verif_kani::hook::RELEASE) {
+            Some(g) => g,
+            None => return,
+        };
         unsafe {
             fence(Ordering::Release);
             *(self.tail_addr as *mut i64) = (term_id * (1_i64 << 32)) | term_offset as i64;
